@@ -260,6 +260,17 @@ func runC04Enum(src sim.Source, o Opts, res *Result) {
 			if t1fail != "" {
 				return
 			}
+			// degenerate uses of the managed forms are endings too: a nil function (a panic on the call, or nothing at all),
+			// and a function that does nothing
+			func() {
+				defer func() { _ = recover() }()
+				_ = w.R.Updates(nil)
+			}()
+			func() {
+				defer func() { _ = recover() }()
+				_ = w.R.View(nil)
+			}()
+			_ = w.R.Updates(func(*fox.Txn) error { return nil })
 			// the router accepts new write transactions: this blocks (deadlock) if the lock was not released
 			if _, err := w.R.Handle("GET", "/zz/probe", world.Handler(0)); err != nil {
 				t1fail = fmt.Sprintf("probe write after the ending failed: %v", err)
